@@ -3,6 +3,7 @@ package main
 import (
 	"encoding/json"
 	"fmt"
+	"golang.org/x/tools/go/ssa"
 	"os"
 	"sort"
 	"strconv"
@@ -380,6 +381,26 @@ func checkOp(r *Report, a *API, name string, spec *OpSpec, aspects aspectSet) {
 				}
 				if strings.HasPrefix(strings.TrimPrefix(tgt, "&"), "u.") || strings.HasPrefix(tgt, "u.") {
 					acc.note("IM1 "+name, false, fmt.Sprintf("writes client state: %s at %s", e.String(), a.P.Pos(e.Pos)))
+				}
+			}
+			// ... nor through a function that is not walked in line (an exported method of another package): its
+			// summary says whether it can write storage reachable from the parameter that receives the argument
+			for _, e := range p.Events {
+				if e.Kind != "call" {
+					continue
+				}
+				ci, ok := e.Instr.(ssa.CallInstruction)
+				if !ok {
+					continue
+				}
+				callee := ci.Common().StaticCallee()
+				if callee == nil || !inModule(callee) {
+					continue
+				}
+				for i, at := range e.Args {
+					if i < len(callee.Params) && at != nil && strings.Contains(at.String(), "arg") && mutatesParam(callee, i, 0) {
+						acc.note("A7 "+name, false, fmt.Sprintf("hands an argument (%s) to %s, which writes storage reachable from it (at %s)", cut(at.String(), 40), e.Name, a.P.Pos(e.Pos)))
+					}
 				}
 			}
 			acc.note("A7 "+name, true, "")
